@@ -253,8 +253,11 @@ class Timeout(BaseException):
     pass
 
 
-def with_alarm(fn, seconds=10):
-    """run fn() under a wall-clock alarm; raises Timeout (a BaseException, so `except Exception` in the code under test cannot swallow it)"""
+CONFIRMED_HANG = [False]   # a timeout reproduced under the long alarm: later timeouts are believed at once
+SLOW_RETRIES = [0]      # calls that hit their alarm once but completed when re-run with a much longer one (machine under load)
+
+
+def _alarm_once(fn, seconds):
     import signal
 
     def h(sig, frm):
@@ -266,14 +269,34 @@ def with_alarm(fn, seconds=10):
         # an enclosing alarm is due earlier: keep it (nestable alarms)
         signal.signal(signal.SIGALRM, old)
         signal.setitimer(signal.ITIMER_REAL, prev_delay)
-        return fn()
+        return fn(), True
     try:
-        return fn()
+        return fn(), bool(prev_delay)
     finally:
         signal.setitimer(signal.ITIMER_REAL, 0)
         signal.signal(signal.SIGALRM, old)
         if prev_delay:
             signal.setitimer(signal.ITIMER_REAL, max(0.01, prev_delay - (time.time() - t0)))
+
+
+def with_alarm(fn, seconds=10, patient=True):
+    """run fn() under a wall-clock alarm; raises Timeout (a BaseException, so `except Exception` in the code under test cannot swallow it).
+    A timeout is believed only if it reproduces: outside an enclosing alarm the call is run once more with a six times longer alarm (a stalled
+    machine - parallel builds, other checks - must not be mistaken for a non-terminating call); the number of such retries is in the evidence."""
+    import signal
+    nested = signal.getitimer(signal.ITIMER_REAL)[0] > 0
+    try:
+        return _alarm_once(fn, seconds)[0]
+    except Timeout:
+        if nested or not patient or CONFIRMED_HANG[0]:
+            raise
+        try:
+            r = _alarm_once(fn, seconds * 6 + 20)[0]
+        except Timeout:
+            CONFIRMED_HANG[0] = True
+            raise
+        SLOW_RETRIES[0] += 1
+        return r
 
 
 class Ctx:
